@@ -1,6 +1,7 @@
 //@file src/half_connection/recv_rate_set.rs
 //@props C14 C03
-// RecvRateSet (X_recv_set): Vec-based.  The unbounded statement belongs to the Verus unit.  Kani cannot prove
+// RecvRateSet (X_recv_set): Vec-based.  The unbounded statement is the Verus unit's (contracts/recv_rate_set.vspec proves these
+// postconditions for every set size, `max` and `loss_increase_update` excepted).  Kani cannot prove
 // `modifies(self)` contracts over a Vec-holding struct ("does not support reasoning about pointer to unallocated memory"),
 // so there are NO contract attributes here.  Instead:
 //   * the postconditions the float callers rely on are checked on the REAL bodies for every set of <= 3 entries
